@@ -147,6 +147,9 @@ def main(argv=None):
     t0 = time.monotonic()
     try:
         check_import_origin()
+        from pv import model
+
+        model.tables()  # snapshot of the definition tables as shipped, before anything is parsed
         mod = load(prop)
         if a.replay:
             bucket, msg = replay_file(mod, a.replay)
